@@ -46,7 +46,7 @@ class Node:
     @property
     def name(self) -> str:
         for w in self.words:
-            if not re.match(r"^[A-Za-z_][A-Za-z0-9_]*=", w):
+            if not re.match(r"^[A-Za-z_][A-Za-z0-9_]*\+?=", w):
                 return w
         return ""
 
@@ -54,9 +54,12 @@ class Node:
     def assignments(self) -> List[Tuple[str, str]]:
         out = []
         for w in self.words:
-            m = re.match(r"^([A-Za-z_][A-Za-z0-9_]*)=(.*)$", w, re.S)
+            m = re.match(r"^([A-Za-z_][A-Za-z0-9_]*)(\+?)=(.*)$", w, re.S)
             if m:
-                v = m.group(2)
+                v = m.group(3)
+                if m.group(2):
+                    # name+=X appends: the new value is the old one followed by X
+                    v = "${" + m.group(1) + "}" + v
                 # name="$a/b" and name=$a/b assign the same text (no word splitting on the right of an assignment): the quotes around a
                 # whole value without blanks, quotes or command substitution are dropped
                 if len(v) >= 2 and v[0] == v[-1] == '"' and not re.search(r'[\s"`]|\$\(', v[1:-1]):
@@ -71,7 +74,7 @@ class Node:
         seen = False
         out = []
         for w in self.words:
-            if not seen and re.match(r"^[A-Za-z_][A-Za-z0-9_]*=", w):
+            if not seen and re.match(r"^[A-Za-z_][A-Za-z0-9_]*\+?=", w):
                 continue
             if not seen:
                 seen = True
@@ -165,6 +168,32 @@ class Lexer:
             c = s[self.i]
             if c in " \t\n":
                 break
+            if c == "(" and re.fullmatch(r"[A-Za-z_][A-Za-z0-9_]*\+?=", s[start:self.i]):
+                # array literal: name=( ... ) / name+=( ... ) is one assignment word
+                depth = 0
+                while self.i < n:
+                    ch = s[self.i]
+                    if ch == "'":
+                        j = s.find("'", self.i + 1)
+                        if j < 0:
+                            self.err("unterminated single quote")
+                        self.i = j
+                    elif ch == '"':
+                        j = self.i + 1
+                        while j < n and s[j] != '"':
+                            j += 2 if s[j] == "\\" else 1
+                        self.i = j
+                    elif ch == "(":
+                        depth += 1
+                    elif ch == ")":
+                        depth -= 1
+                        if depth == 0:
+                            self.i += 1
+                            break
+                    elif ch == "\n":
+                        self.line += 1
+                    self.i += 1
+                continue
             if c in ";|()":
                 break
             if c == "&":
@@ -467,7 +496,7 @@ class Parser:
                         n.heredoc = self.lx.heredoc_bodies.get(id(tgt_tok))
                 n.redirects.append((op, rest))
                 continue
-            if w.text.endswith("()") or (self.peek() and self.peek().kind == "op" and self.peek().text == "(" and not n.words):
+            if (w.text.endswith("()") and not re.match(r"^[A-Za-z_][A-Za-z0-9_]*\+?=\(", w.text)) or (self.peek() and self.peek().kind == "op" and self.peek().text == "(" and not n.words):
                 self.err("function definitions")
             n.words.append(w.text)
         if not n.words and not n.redirects:
